@@ -17,6 +17,7 @@ impl Clone for Commitment {
 impl Copy for Commitment {}
 pub mod pedersen { pub use crate::Commitment; }
 
+#[derive(PartialEq, Eq, Structural)]
 pub struct Uuid { pub v: u128 }
 impl Clone for Uuid {
     #[verifier::external_body]
